@@ -75,9 +75,12 @@ func (en *Engine) doCall(st *State, fr *Frame, x *ssa.Call) ([]*State, bool, err
 		st.addEvent(&Event{Kind: EvDeref, Instr: x, X: args[0], Callee: "invoke"})
 	}
 	if callee != nil && callee.Blocks != nil && en.P.inModule(callee) && !en.inStack(st, callee) &&
-		len(st.frames) < 10 && en.Inline != nil && en.Inline(fr.fn, callee, len(st.frames)) {
+		len(st.frames) < 12 && en.Inline != nil && (isBoundWrapper(callee) || en.boundInl[callee] || en.Inline(fr.fn, callee, len(st.frames))) {
 		en.pushFrame(st, fr, x, callee, bindings, args, false, "")
 		return nil, true, nil
+	}
+	if callee != nil && callee.Blocks != nil && en.P.inModule(callee) {
+		en.NotInlined[callee] = true
 	}
 	ct := lookupContract(name)
 	if ct != nil && ct.Iterate {
@@ -178,8 +181,9 @@ func (en *Engine) external(st *State, fr *Frame, x *ssa.Call, name string, calle
 			}
 		}
 	case callee != nil && en.P.inModule(callee):
-		if !en.modulePure(callee) {
-			for _, a := range args {
+		eff := moduleEffect(en.P, callee, map[*ssa.Function]bool{})
+		for i, a := range args {
+			if eff.global || eff.params[i] {
 				en.havoc(st, a)
 			}
 		}
@@ -233,11 +237,21 @@ func (en *Engine) iterate(st *State, fr *Frame, x *ssa.Call, name string, callee
 	elem.key = "iterelem(" + root.Key() + ")@" + site
 	g.addEvent(&Event{Kind: EvIterEnter, Instr: x, Callee: id, CalleeFn: h.Fn, Args: args, X: elem})
 	// havoc what earlier invocations of the handler may have written
-	for _, s := range handlerStores(h.Fn) {
-		tmp := &Frame{fn: h.Fn, env: map[ssa.Value]Val{}}
-		for i, fv := range h.Fn.FreeVars {
-			if i < len(h.Bindings) {
-				tmp.env[fv] = h.Bindings[i]
+	hfn := h.Fn
+	if tgt := boundTarget(en.P, h.Fn); tgt != nil {
+		hfn = tgt // a method value: the stores are in the method, the receiver is the single binding
+	}
+	for _, s := range handlerStores(hfn) {
+		tmp := &Frame{fn: hfn, env: map[ssa.Value]Val{}}
+		if hfn != h.Fn {
+			if len(hfn.Params) > 0 && len(h.Bindings) > 0 {
+				tmp.env[hfn.Params[0]] = h.Bindings[0]
+			}
+		} else {
+			for i, fv := range h.Fn.FreeVars {
+				if i < len(h.Bindings) {
+					tmp.env[fv] = h.Bindings[i]
+				}
 			}
 		}
 		en.havocStoreTarget(g, tmp, s)
@@ -344,111 +358,135 @@ func mkLen(st *State, x Val, t types.Type) Val {
 	return mkCall("len", nil, []Val{x}, "", 0, 1, t)
 }
 
-// modulePure: a module function is heap-pure when neither it nor anything it statically calls in the
-// module stores through non-local memory, updates a non-local map, or calls an external that writes / is unmodelled.
-func (en *Engine) modulePure(fn *ssa.Function) bool {
-	return modulePureRec(en.P, fn, map[*ssa.Function]bool{})
+// Write-effect summary of a module function (syntactic, transitive within the module): does it write memory that is
+// neither its own nor reached through one of its parameters ("global": anything loaded from elsewhere, package
+// variables, unknown callees on pointer-carrying values), and through which parameters does it write. A caller's heap
+// survives a summarised call except for what hangs off the arguments in those parameter positions.
+type effect struct {
+	global bool
+	params map[int]bool
 }
 
-var pureCache = map[any]bool{}
+var effCache = map[*ssa.Function]*effect{}
 
-func modulePureRec(p *Prog, fn *ssa.Function, seen map[*ssa.Function]bool) bool {
-	if v, ok := pureCache[fn]; ok {
-		return v
+func resetEffCache() { effCache = map[*ssa.Function]*effect{} }
+
+func (en *Engine) modulePure(fn *ssa.Function) bool {
+	e := moduleEffect(en.P, fn, map[*ssa.Function]bool{})
+	return !e.global && len(e.params) == 0
+}
+
+func moduleEffect(p *Prog, fn *ssa.Function, seen map[*ssa.Function]bool) *effect {
+	if e, ok := effCache[fn]; ok {
+		return e
 	}
 	if seen[fn] {
-		return true
+		return &effect{params: map[int]bool{}}
 	}
 	seen[fn] = true
-	pure := true
-	var localBase func(v ssa.Value) bool
-	localBase = func(v ssa.Value) bool {
+	e := &effect{params: map[int]bool{}}
+	var base func(v ssa.Value) (string, int)
+	base = func(v ssa.Value) (string, int) {
 		switch a := v.(type) {
-		case *ssa.Alloc:
-			return true
+		case *ssa.Alloc, *ssa.MakeSlice, *ssa.MakeMap, *ssa.FreeVar:
+			return "local", 0
 		case *ssa.FieldAddr:
-			return localBase(a.X)
+			return base(a.X)
 		case *ssa.IndexAddr:
-			return localBase(a.X)
-		case *ssa.MakeSlice, *ssa.MakeMap, *ssa.FreeVar:
-			return true
+			return base(a.X)
 		case *ssa.Slice:
-			return localBase(a.X)
+			return base(a.X)
+		case *ssa.MakeInterface:
+			return base(a.X)
+		case *ssa.ChangeType:
+			return base(a.X)
+		case *ssa.Parameter:
+			for i, pp := range fn.Params {
+				if pp == a {
+					return "param", i
+				}
+			}
 		}
-		return false
+		return "other", 0
+	}
+	write := func(v ssa.Value) {
+		switch k, i := base(v); k {
+		case "local":
+		case "param":
+			e.params[i] = true
+		default:
+			e.global = true
+		}
+	}
+	closure := func(f *ssa.Function) {
+		ce := moduleEffect(p, f, seen)
+		if ce.global || len(ce.params) > 0 {
+			e.global = true // a function value is invoked with arguments this summary does not see
+		}
 	}
 	for _, b := range fn.Blocks {
 		for _, in := range b.Instrs {
 			switch x := in.(type) {
 			case *ssa.Store:
-				if !localBase(x.Addr) {
-					pure = false
-				}
+				write(x.Addr)
 			case *ssa.MapUpdate:
-				if !localBase(x.Map) {
-					pure = false
-				}
+				write(x.Map)
 			case ssa.CallInstruction:
 				c := x.Common()
 				if c.IsInvoke() {
 					name := "(" + types.TypeString(c.Value.Type(), nil) + ")." + c.Method.Name()
 					ct := lookupContract(name)
 					if ct == nil || len(ct.Writes) > 0 {
-						pure = false
+						e.global = true
 					}
 					continue
 				}
 				switch v := c.Value.(type) {
 				case *ssa.Builtin:
-					if v.Name() == "copy" || v.Name() == "delete" {
-						pure = false
+					if (v.Name() == "copy" || v.Name() == "delete") && len(c.Args) > 0 {
+						write(c.Args[0])
 					}
 				case *ssa.Function:
 					if p.inModule(v) && v.Blocks != nil {
-						if !modulePureRec(p, v, seen) {
-							pure = false
+						ce := moduleEffect(p, v, seen)
+						if ce.global {
+							e.global = true
+						}
+						for i := range ce.params {
+							if i < len(c.Args) {
+								write(c.Args[i])
+							}
 						}
 					} else {
 						ct := lookupContract(v.String())
 						if ct == nil {
-							// an unmodelled external function that receives only immutable values (strings,
-							// numbers, booleans) has no path to the caller's objects
+							// an unmodelled external function can write through any pointer-carrying argument;
+							// one that receives only immutable values (strings, numbers) has no path to our objects
 							for _, a := range c.Args {
 								if mayPointTo(a.Type()) {
-									pure = false
+									write(a)
 								}
 							}
-						} else if len(ct.Writes) > 0 {
+						} else {
 							for _, wi := range ct.Writes {
-								if wi < len(c.Args) && !localIface(c.Args[wi], localBase) {
-									pure = false
+								if wi < len(c.Args) {
+									write(c.Args[wi])
 								}
 							}
 						}
 					}
 				case *ssa.MakeClosure:
-					if !modulePureRec(p, v.Fn.(*ssa.Function), seen) {
-						pure = false
-					}
+					closure(v.Fn.(*ssa.Function))
 				default:
 					// call through a function value: closures created in this function are scanned below
 				}
 			case *ssa.MakeClosure:
-				if !modulePureRec(p, x.Fn.(*ssa.Function), seen) {
-					pure = false
-				}
+				closure(x.Fn.(*ssa.Function))
 			}
 		}
 	}
-	pureCache[fn] = pure
-	return pure
-}
-
-func localIface(v ssa.Value, localBase func(ssa.Value) bool) bool {
-	if mi, ok := v.(*ssa.MakeInterface); ok {
-		return localBase(mi.X)
-	}
-	return localBase(v)
+	effCache[fn] = e
+	return e
 }
 
 var treePureCache = map[any]bool{}
@@ -507,4 +545,25 @@ func moduleTreePure(p *Prog, fn *ssa.Function, seen map[*ssa.Function]bool) bool
 	}
 	treePureCache[fn] = pure
 	return pure
+}
+
+// isBoundWrapper: go/ssa's synthetic wrapper for a method value x.m (one free variable: the receiver).
+func isBoundWrapper(fn *ssa.Function) bool {
+	return fn != nil && strings.HasPrefix(fn.Synthetic, "bound method wrapper")
+}
+
+// boundTarget: the declared method behind a bound-method wrapper (nil for interface methods and non-wrappers).
+func boundTarget(p *Prog, fn *ssa.Function) *ssa.Function {
+	if !isBoundWrapper(fn) {
+		return nil
+	}
+	obj, ok := fn.Object().(*types.Func)
+	if !ok {
+		return nil
+	}
+	t := p.SSA.FuncValue(obj)
+	if t == nil || t.Blocks == nil {
+		return nil
+	}
+	return t
 }
